@@ -527,3 +527,10 @@ case(C + "all_same_len", name="maybe-empty", params={"s": Set(STR), "x": STR}, r
      gen=lambda rng: {"x": "a", "e": rng.random() < 0.5}, build=lambda d: {"s": set() if d["e"] else {d["x"]}, "x": d["x"]})
 case(C + "singleton_len", params={"x": STR}, returns=INT, ensures={"one": "result == 1"}, canaries={"zero": "result == 0"},
      gen=lambda rng: {"x": rng.choice(["a", "b"])})
+
+# ---- `[c] * n` with a symbolic count: fresh list of that length, every element c (round 4) ----------------------------------------
+case(C + "repeat_none", params={"xs": List(INT)}, returns=Tuple(List(Opt(INT)), List(INT)), locals={"out": List(Opt(INT))},
+     ensures={"len": "len(result[0]) == len(xs) and len(result[1]) == len(xs)", "none": "all(result[0][i] is None for i in range(len(xs)))",
+              "zero": "all(z == 0 for z in result[1])"},
+     canaries={"some": "len(xs) > 0 and result[0][0] is not None", "one": "len(result[1]) == 1", "ones": "all(z == 1 for z in result[1])"},
+     gen=lambda rng: {"xs": ints(rng)})
